@@ -47,6 +47,11 @@ def configure_alt():
     h = hashlib.sha1(os.path.realpath(REPO).encode()).hexdigest()[:10]
     alt = os.path.join(CACHE, "alt", h)
     os.makedirs(alt, exist_ok=True)
+    # (VERIF_SRC=<copy of lean/ and harness/>: mirror from a frozen copy, so that the sources under
+    # /verif can be edited while candidate changes are being tried in the background)
+    src = os.environ.get("VERIF_SRC")
+    if src:
+        LEAN, HARNESS = os.path.join(src, "lean"), os.path.join(src, "harness")
     subprocess.run(["rsync", "-a", "--delete", "--exclude", "Gen/Consts.lean", LEAN + "/", alt + "/lean/"], check=True)
     subprocess.run(["rsync", "-a", "--delete", "--exclude", "target", "--exclude", "Cargo.toml", HARNESS + "/", alt + "/harness/"], check=True)
     toml = open(os.path.join(HARNESS, "Cargo.toml")).read().replace('path = "/repo"', 'path = "%s"' % os.path.realpath(REPO))
